@@ -9,7 +9,7 @@
 * printer_decision(): explores print_tokens on the list `; A B <eof>` where B carries "no white space, not at the
   beginning of a line" and every field the re-lexing cannot depend on (everything but kind and spelling) is unconstrained.
 """
-import os, pickle, string
+import os, pickle, signal, string
 from .interp import Obj, Arr, ElemPlace, _Ref, _ValPlace, wrap_int, Infeasible, _BUILTIN_MODELS
 from .build import AnalysisBroken
 from .lib_c09 import PInterp, chain
@@ -316,6 +316,13 @@ class CMachine(PInterp):
             return ISBITS[n.ref_name]
         return super().e_DeclRefExpr(n, env)
 
+    def cmp(self, op, a, b):
+        # pointers into different character buffers are pointers to different objects
+        if op in ('==', '!=') and isinstance(a, _Ref) and isinstance(b, _Ref) and isinstance(a.place, ElemPlace) and isinstance(b.place, ElemPlace) \
+                and isinstance(a.place.arr, Arr) and isinstance(b.place.arr, Arr) and a.place.arr is not b.place.arr:
+            return int(op == '!=')
+        return super().cmp(op, a, b)
+
     def e_CallExpr(self, n, env):
         name = n.callee()
         if name is not None and name not in self.cut and name not in self.models and name not in self.noreturn \
@@ -401,7 +408,8 @@ class CMachine(PInterp):
                             if lo is not None:
                                 _note(args[i].place.arr.elems, args[i].place.i + lo, args[i].place.i + hi)
                     return r[0]
-        nd = len(self.ctx.decisions), self.ctx.di, len(self.ctx.events)
+        nd = len(self.ctx.decisions), self.ctx.di
+        ne = len(self.ctx.events)
         _TRK.append({})
         try:
             r = super().call_fn(unit, fn, args)
@@ -410,7 +418,7 @@ class CMachine(PInterp):
             if _TRK:
                 for lo, hi, b in reads.values():
                     _note(b, lo, hi)
-        if isinstance(r, int) and not isinstance(r, bool) and (len(self.ctx.decisions), self.ctx.di, len(self.ctx.events)) == nd \
+        if isinstance(r, int) and (len(self.ctx.decisions), self.ctx.di) == nd and all(e[0] == 'loop_done' for e in self.ctx.events[ne:]) \
                 and all(id(b) in set(id(x) for x in bufs) for _, _, b in reads.values()):
             shape, key = [], []
             for i in ptrs:
@@ -565,7 +573,7 @@ class Printer:
         opaque = [f for f in ('open_file',) if f in self.u.functions]
         self.it = CMachine(P, self.u, {'opaque': opaque, 'cut': {k: None for k in OUTS}, 'loop_limit': 0})
 
-    def decide(self, kind_a, a, b_kind, b, max_paths=96):
+    def decide(self, kind_a, a, b_kind, b, max_paths=256):
         """-> list of (separated?, trail, fields consulted) per returning path of print_tokens on `; A B`"""
         it, E = self.it, self.E
         def tok(label, kind, bs, **kw):
@@ -609,9 +617,33 @@ class Printer:
             between = text[ia[0] + 1:ib[0]]
             sep = ''.join(t[1] for t in between if t[0] == 'sep')
             other = [t for t in between if t[0] != 'sep']
-            consulted = sorted(set('%s->%s' % (t.label, f) for t in box['toks'] for f in t.fields if f not in box['base'][id(t)]))
+            consulted = _Consulted()
+            for t in box['toks']:
+                for f in sorted(t.fields):
+                    if f not in box['base'][id(t)]:
+                        v = it.settle(t.fields[f])
+                        consulted['%s->%s' % (t.label, f)] = v if isinstance(v, (int, str)) else ('object' if isinstance(v, Obj) else 'value')
             res.append(((' ' in sep or '\n' in sep or '\t' in sep) and not other, ctx.trail, consulted))
         return res
+
+
+class _Consulted(dict):
+    """fields of the tokens that a path of the printer materialised (asked about) beyond kind/spelling/flags of the next token, with the
+    value the path assumed; iterates in sorted order like the list of names it replaces"""
+
+    def __iter__(self):
+        return iter(sorted(self.keys()))
+
+
+def _culprits(glued, separated):
+    """names of the fields on which gluing hangs: a glued and a separated path that agree on every other field they both asked about"""
+    names = set()
+    for p in glued:
+        for q in separated:
+            diff = set(k.split('->')[-1] for k in set(p) | set(q) if p.get(k, None) != q.get(k, None))
+            if len(diff) == 1:
+                names |= diff
+    return sorted(names) or sorted(set(k.split('->')[-1] for p in glued for k in p))
 
 
 def _same_buf(v, loc):
@@ -708,9 +740,10 @@ def _work(P, lx, pr, group, kind, kinds_at_printer, prevs, nxts):
                     miss = [x for x in d if x[0] is False]
                     if miss and len(miss) < len(d) and all(x[2] for x in miss):
                         # separated on some paths, glued on others, and the glued ones asked about fields that say nothing about spellings
-                        out.append((a, b, 'depends', (how, miss[0][1][-6:], sorted(set(f for x in miss for f in x[2])), len(miss), len(d)), ka))
+                        cul = _culprits([x[2] for x in miss], [x[2] for x in d if x[0]])
+                        out.append((a, b, 'depends', (how, miss[0][1][-6:], sorted(set(f for x in miss for f in x[2] if f.split('->')[-1] in cul)), len(miss), len(d)), ka))
                     elif miss:
-                        out.append((a, b, 'glued', (how, miss[0][1][-6:], miss[0][2], len(miss), len(d)), ka))
+                        out.append((a, b, 'glued', (how, miss[0][1][-6:], list(miss[0][2]), len(miss), len(d)), ka))
                     else:
                         out.append((a, b, 'separated', (how, len(d)), ka))
     return out
@@ -752,6 +785,7 @@ def run_table(P, workers=None):
                 if pid == 0:
                     code = 0
                     try:
+                        signal.alarm(200)       # a worker never outlives the budget of the check
                         os.close(rfd)
                         data = pickle.dumps(_work(P, lx, pr, group, kind, kap, ch, nxts))
                         with os.fdopen(wfd, 'wb') as w:
@@ -771,6 +805,8 @@ def run_table(P, workers=None):
                 _, st = os.waitpid(pid, 0)
                 if st == 0 and data:
                     results[i] = pickle.loads(data)
+                elif os.WIFSIGNALED(st):
+                    results[i] = [(b'?', b'?', 'undecided', 'the evaluation of a part of the table did not finish in time', None)]
             except Exception:
                 results[i] = None
     for i, ch in enumerate(chunks):
